@@ -148,6 +148,9 @@ class KindAnalysis:
         self.unresolved = 0
         self.returns: list[tuple[ast.AST, Kind]] = []
         self.allmask_true = False  # inside a branch where all(mask) holds (FULL == EXT)
+        from .flow import Defs
+
+        self._defs = Defs(fn)
         self.counters = self._find_counters()
         self.block(fn.node.body)
 
@@ -577,9 +580,28 @@ class KindAnalysis:
         elif k[0] == "DICT":
             self.env[t.id] = ("T", k[1])
 
+    def _allmask_test(self, t: ast.AST) -> bool | None:
+        """True / False if the test is (equivalent to) `all(<mask>)` / `not all(<mask>)`, following local definitions."""
+        import re as _re
+
+        from .flow import cond
+
+        text, pol = cond(self._defs.resolve(t))
+        m = _re.fullmatch(r"all\((\w+)\)", text)
+        if m and (self.env.get(m.group(1)) == MASK or m.group(1) in ("mask", "shape_mask")):
+            return pol
+        return None
+
     def block(self, body: list[ast.stmt]) -> None:
+        prev = self.allmask_true
         for st in body:
             self.stmt(st)
+            # `if [not] all(mask): ...; continue/return/raise` - the rest of the block runs under the negated test
+            if isinstance(st, ast.If) and not st.orelse and st.body and isinstance(st.body[-1], (ast.Continue, ast.Return, ast.Raise, ast.Break)):
+                am = self._allmask_test(st.test)
+                if am is False:
+                    self.allmask_true = True
+        self.allmask_true = prev
 
     def stmt(self, st: ast.stmt) -> None:  # noqa: C901, PLR0912
         if isinstance(st, (ast.FunctionDef, ast.AsyncFunctionDef, ast.ClassDef)):
@@ -635,13 +657,14 @@ class KindAnalysis:
             self._scan(t)
             saved = dict(self.env)
             prev = self.allmask_true
-            if tn in ("all(mask)", "all(shape_mask)"):
+            am = self._allmask_test(t)
+            if am is True:
                 self.allmask_true = True
             self.block(st.body)
             self.allmask_true = prev
             env_t = self.env
             self.env = dict(saved)
-            if tn in ("not all(mask)", "not all(shape_mask)"):
+            if am is False:
                 self.allmask_true = True
             self.block(st.orelse)
             self.allmask_true = prev
